@@ -246,6 +246,12 @@ def run(ctx):
     for k in ctx.known:
         if k.get("status") == "known" and k["key"] not in hit:
             print("NOTE: property=C18 known finding [%s] did not reproduce in this run" % k["key"], flush=True)
+    if not ctx.violations:
+        # migration/pipeline/pipeline.go and migration/semaphore carry every data migration (Pipeline.tla, Semaphore.tla: G06);
+        # the head-state migration is the state-side schema migration (HeadState.tla: G05)
+        ctx.include("G06", options={"only": ["pipeline", "semaphore"]}, accept=lambda k: k.startswith(("pipeline", "semaphore", "crash:")),
+                    why="migration/pipeline and migration/semaphore: every item through every stage exactly once, one error, termination")
+        ctx.include("G05", why="head-state migration: reads and commitment preserved, crash at every durable mutation")
     ctx.assumptions += [
         "a single Batch.Write / Put / DeleteRange is atomic and durable (C15 examines the backends)",
         "a crash is modelled as: the k-th durable mutation is applied and no later operation reaches the store",
